@@ -40,7 +40,6 @@ for P in $PROPS; do
   sigs=$(echo "$r" | grep "^violation" | sed 's/^violation \([^:]*\):.*/\1/' | sort -u | tr '\n' ' ')
   detected="$detected$P:$n[$sigs] "
 done
-rm -rf /verif/replays
 python3 - "$OUT" "$SRC/meta.json" "$builds" "$suite" "$demo_with" "$demo_without" "$detected" "$PROPS" <<'PY'
 import json,sys
 out,meta,builds,suite,dw,dwo,det,props=sys.argv[1:9]
